@@ -222,7 +222,7 @@ def to_coq(c, out):
         b = rec['block'] or [-1, -1, -1]
         obs.append('(%s, %s, %s)' % (cblock(b), cz(rec['size']),
                                      clist(rec['reads'], lambda r: '(%s, %s)' % (cnat(r[0]), clist(r[1])))))
-    return '(%s, %s, %s, %s)' % (cz(c['pg']), cz(c['size']), clist(c['ops'], model_op), '[' + '; '.join(obs) + ']')
+    return '((%s, %s, %s, %s) : SharedMem.case)' % (cz(c['pg']), cz(c['size']), clist(c['ops'], model_op), '[' + '; '.join(obs) + ']')
 
 
 # ------------------------------------------------------------- the property, on the implementation trace
@@ -462,7 +462,7 @@ def procs(res):
 
 def run(res):
     res.proof_step('Props/C15.v', extra_targets=['Model/SharedMem.vo'], kernels_needed=['G_sharedmem'])
-    n = 150 if res.tier == 'quick' else 4000
+    n = 110 if res.tier == 'quick' else 3000
     if res.broken:
         n = max(n, 1500)
     correspond(res, n)
